@@ -4,10 +4,10 @@ import (
 	"fmt"
 	"testing"
 
+	"verif/sim/sctx"
 	"verif/sim/simrt"
 	"verif/sim/ssync"
 	"verif/sim/stime"
-	"verif/sim/sctx"
 )
 
 func run(seed uint64, strat string, f func()) *simrt.Result {
